@@ -12,12 +12,13 @@ open Nuts.C04
 
 /-! ### Obligations on the regenerated facts -/
 
-/-- bestPracticesCheck tests the jti with `uuid.Parse` on `tokenJTI(token)` (a non-string jti is "") -/
+/-- bestPracticesCheck tests the jti with `uuid.Validate` on `tokenJTI(token)` (a non-string jti is "") -/
 theorem fact_jti_check :
-    Facts.C04.jtiCheck = ["jti := tokenJTI(token)", "if _, err := uuid.Parse(jti); err != nil"]
+    Facts.C04.jtiCheck = ["jti := tokenJTI(token)", "if err := uuid.Validate(jti); err != nil"]
+    ∧ Facts.C04.jtiFunction = .validate
     ∧ Facts.C04.tokenJTIBody =
       "{ if jtiIface, ok := token.Get(jwt.JwtIDKey); ok { if jtiStr, ok := jtiIface.(string); ok { return jtiStr } } return \"\" }" := by
-  refine ⟨by decide, by rfl⟩
+  refine ⟨by decide, by decide, by rfl⟩
 
 /-- the grammar in Uuid.lean is the one of this version of the library (an upgrade needs a re-read of `Parse`) -/
 theorem fact_uuid_module_version : Facts.C04.uuidModuleVersion = "v1.6.0" := by decide
@@ -40,15 +41,29 @@ theorem parseDashed_take (s : Str) (h : parseDashed s = true) : parseDashed (s.t
 inductive Affix (pre post : Str) : Prop where
   | bare (h1 : pre = []) (h2 : post = [])
   | urn (h1 : isUrnPrefix pre = true) (h2 : post = [])
-  | oneByteEachSide (h1 : pre.length = 1) (h2 : post.length = 1)     -- `{…}`; the library does not look at the two bytes
+  | braces (h1 : pre = ['{']) (h2 : post = ['}'])
 
-/-- **jti_accepted_shapes** (every byte string): whatever `uuid.Parse` accepts is a canonical 8-4-4-4-12 UUID or 32 hex
-    digits, alone, or the canonical form behind a `urn:uuid:` prefix (any case), or the canonical form with exactly
-    one byte in front and one behind. Nothing else — no free text before, after or between. -/
-theorem jti_accepted_shapes (s : Str) (h : uuidParse s = true) :
+theorem head_of_take_one {s : Str} {c : Char} (h : s.head? = some c) : s.take 1 = [c] := by
+  cases s with
+  | nil => simp at h
+  | cons a r => simp at h; simp [h]
+
+theorem drop_37_of_last {s : Str} {c : Char} (hl : s.length = 38) (h : s.getLast? = some c) : s.drop 37 = [c] := by
+  have h1 : (s.drop 37).length = 1 := by simp [hl]
+  have h2 : (s.drop 37).getLast? = some c := by
+    rw [List.getLast?_drop]; simp [hl, h]
+  match hd : s.drop 37, h1 with
+  | [x], _ => rw [hd] at h2; simp at h2; rw [h2]
+
+/-- **jti_accepted_shapes** (every byte string): whatever the jti test accepts is a canonical 8-4-4-4-12 UUID or 32 hex
+    digits, alone, or the canonical form behind a `urn:uuid:` prefix (any case), or the canonical form in braces.
+    Nothing else — no free text before, after or between. -/
+theorem jti_accepted_shapes (s : Str) (h : jtiOK Facts.C04.jtiFunction s = true) :
     ∃ pre core post, s = pre ++ core ++ post ∧ Affix pre post ∧
       (isCanonicalUuid core = true ∨ (core.length = 32 ∧ (List.range 16).all (fun i => hexPairAt core (2 * i)) = true ∧ pre = [] ∧ post = [])) := by
-  unfold uuidParse at h
+  rw [fact_jti_check.2.1] at h
+  simp only [jtiOK] at h
+  unfold uuidValidate at h
   split at h
   · next h36 => exact ⟨[], s, [], by simp, .bare rfl rfl, Or.inl (by simp [isCanonicalUuid, h36, h])⟩
   · split at h
@@ -59,18 +74,42 @@ theorem jti_accepted_shapes (s : Str) (h : uuidParse s = true) :
       exact ⟨by omega, h.2⟩
     · split at h
       · next _ _ h38 =>
-        refine ⟨s.take 1, (s.drop 1).take 36, s.drop 37, ?_, .oneByteEachSide (by simp; omega) (by simp; omega), Or.inl ?_⟩
+        simp only [Bool.and_eq_true, decide_eq_true_eq] at h
+        obtain ⟨⟨hh, hlast⟩, hd⟩ := h
+        refine ⟨s.take 1, (s.drop 1).take 36, s.drop 37, ?_, ?_, Or.inl ?_⟩
         · have : s.drop 37 = (s.drop 1).drop 36 := by simp
           rw [this, List.append_assoc, List.take_append_drop, List.take_append_drop]
+        · exact .braces (head_of_take_one hh) (drop_37_of_last h38 hlast)
         · simp only [isCanonicalUuid, Bool.and_eq_true, decide_eq_true_eq, List.length_take, List.length_drop]
-          exact ⟨by omega, parseDashed_take _ h⟩
+          exact ⟨by omega, parseDashed_take _ hd⟩
       · split at h
         · next h32 => exact ⟨[], s, [], by simp, .bare rfl rfl, Or.inr ⟨h32, h, rfl, rfl⟩⟩
         · simp at h
 
+/-- `Validate` accepts nothing that `Parse` refuses -/
+theorem validate_implies_parse (s : Str) (h : uuidValidate s = true) : uuidParse s = true := by
+  unfold uuidValidate at h
+  unfold uuidParse
+  by_cases h36 : s.length = 36
+  · simpa [h36] using h
+  · by_cases h45 : s.length = 36 + 9
+    · simpa [h36, h45] using h
+    · by_cases h38 : s.length = 36 + 2
+      · rw [if_neg h36, if_neg h45, if_pos h38] at h ⊢
+        simp only [Bool.and_eq_true] at h
+        exact h.2
+      · rw [if_neg h36, if_neg h45, if_neg h38] at h ⊢
+        exact h
+
+/-- the defect of the code before the repair (witness replayed on the real middleware by the token harness, variant
+    `jti-uuid-38-any-ends`): `uuid.Parse` takes ANY two bytes around a canonical UUID for braces -/
+theorem uuid_parse_admits_non_uuid_38 :
+    jtiOK .parse ("x".toList ++ "123e4567-e89b-12d3-a456-426614174000".toList ++ "y".toList) = true
+    ∧ jtiOK .validate ("x".toList ++ "123e4567-e89b-12d3-a456-426614174000".toList ++ "y".toList) = false := by decide
+
 /-- **uuid_with_extra_text_rejected**: a canonical UUID with ANY text around it whose total length is not 2 or 9 bytes
     (`batch-<uuid>`, `<uuid>-retry-17`, `<uuid><uuid>`, free text containing a UUID …) is not a UUID -/
-theorem uuid_with_extra_text_rejected (pre u post : Str) (hu : u.length = 36)
+theorem uuid_with_extra_text_rejected_parse (pre u post : Str) (hu : u.length = 36)
     (hk : pre.length + post.length ≠ 0 ∧ pre.length + post.length ≠ 2 ∧ pre.length + post.length ≠ 9) :
     uuidParse (pre ++ u ++ post) = false := by
   unfold uuidParse
@@ -81,6 +120,18 @@ theorem uuid_with_extra_text_rejected (pre u post : Str) (hu : u.length = 36)
   have h3 : ¬ (36 + (pre.length + post.length) = 36 + 2) := by omega
   have h4 : ¬ (36 + (pre.length + post.length) = 32) := by omega
   rw [if_neg h1, if_neg h2, if_neg h3, if_neg h4]
+
+theorem uuid_with_extra_text_rejected (fn : JtiFn) (pre u post : Str) (hu : u.length = 36)
+    (hk : pre.length + post.length ≠ 0 ∧ pre.length + post.length ≠ 2 ∧ pre.length + post.length ≠ 9) :
+    jtiOK fn (pre ++ u ++ post) = false := by
+  have hp := uuid_with_extra_text_rejected_parse pre u post hu hk
+  cases fn with
+  | parse => exact hp
+  | validate =>
+    simp only [jtiOK]
+    cases hv : uuidValidate (pre ++ u ++ post) with
+    | false => rfl
+    | true => rw [validate_implies_parse _ hv] at hp; exact absurd hp (by decide)
 
 /-- non-vacuity and the remaining affix lengths on a concrete UUID: the accepted notations, and 2 / 9 bytes of text that
     are not the braces position / the URN prefix -/
@@ -96,8 +147,9 @@ example : uuidParse (exUuid ++ "-1".toList) = false := by decide            -- 2
 example : uuidParse ("id".toList ++ exUuid) = false := by decide
 example : uuidParse (exUuid ++ exUuid) = false := by decide
 example : uuidParse [] = false := by decide
-/-- the library's leniency, stated: in the 38-byte form the first and last byte are not looked at -/
-example : uuidParse ("x".toList ++ exUuid ++ "y".toList) = true := by decide
+example : uuidValidate ("{".toList ++ exUuid ++ "}".toList) = true := by decide
+example : uuidValidate ("x".toList ++ exUuid ++ "y".toList) = false := by decide
+example : uuidValidate ("{".toList ++ exUuid ++ "-".toList) = false := by decide
 
 /-! ### the RSA strength rule -/
 
